@@ -161,6 +161,41 @@ def permuted_dict(d, rng):
             'context': [shuf(r) for r in d['context']], 'lattice': out}
 
 
+def structured_raw_dict(d, rng, how):
+    """raw=True inputs that are *not* random shuffles: 'sorted' = canonical concept order with every
+    inner index tuple ascending (lower neighbors are canonically longlex, i.e. not ascending),
+    'reversed' = every sequence reversed, 'inner' = only the inner tuples shuffled,
+    'concepts' = only the concept list shuffled."""
+    lat = [tuple(map(tuple, row)) for row in d['lattice']]
+    n = len(lat)
+    if how == 'sorted':
+        out = [tuple(tuple(sorted(t)) for t in row) for row in lat]
+        ctx_rows = [tuple(sorted(r)) for r in d['context']]
+    elif how == 'reversed':
+        newpos = {old: n - 1 - old for old in range(n)}
+        out = [(ex[::-1], in_[::-1], tuple(newpos[u] for u in up)[::-1], tuple(newpos[l] for l in lo)[::-1])
+               for ex, in_, up, lo in reversed(lat)]
+        ctx_rows = [tuple(r)[::-1] for r in d['context']]
+    elif how == 'inner':
+        def shuf(t):
+            t = list(t)
+            rng.shuffle(t)
+            return tuple(t)
+        out = [tuple(shuf(t) for t in row) for row in lat]
+        ctx_rows = [shuf(r) for r in d['context']]
+    else:
+        perm = list(range(n))
+        rng.shuffle(perm)
+        newpos = {old: new for new, old in enumerate(perm)}
+        out = [(lat[perm[p]][0], lat[perm[p]][1], tuple(newpos[u] for u in lat[perm[p]][2]),
+                tuple(newpos[l] for l in lat[perm[p]][3])) for p in range(n)]
+        ctx_rows = [tuple(r) for r in d['context']]
+    return {'objects': d['objects'], 'properties': d['properties'], 'context': ctx_rows, 'lattice': out}
+
+
+RAW_HOWS = ['sorted', 'reversed', 'inner', 'concepts']
+
+
 def setup(concepts, spec):
     cap = CAP[spec['tier']]
     attach.attach_ctor(concepts)
@@ -209,6 +244,12 @@ def run_case(concepts, case, spec):
             if c3 is not RAISED and 'lattice' in vars(c3):
                 with core.monitor_code():
                     judge_order(common.tie(c3.lattice, c3), cap, 'loaded_raw')
+            how = RAW_HOWS[hash(gen.table_key(case)) % len(RAW_HOWS)]
+            c4 = call(concepts.Context.fromdict, structured_raw_dict(d, rng, how), raw=True)
+            if c4 is not RAISED and 'lattice' in vars(c4):
+                COL.count('structured_raw_' + how)
+                with core.monitor_code():
+                    judge_order(common.tie(c4.lattice, c4), cap, 'loaded_raw')
         if sl.n <= 250:
             try:
                 ctx2, lat2 = pickle.loads(pickle.dumps((ctx, lat)))
